@@ -74,7 +74,7 @@ MkWrapped(h, p, s, n, extra, lf) ==
    expPayload |-> IF full /\ extra = <<>> THEN Range(Len(h) + 3, Len(h) + 2 + Len(p)) ELSE <<>>,
    expSig |-> IF full /\ extra = <<>> THEN Range(Len(h) + Len(p) + 4, Len(h) + Len(p) + 3 + Len(s)) ELSE <<>>]
 
-Extras == { <<>>, <<"T">>, <<"E">>, <<"BM">>, <<"T", "E">> }
+Extras == { <<>>, <<"T">>, <<"E">>, <<"BM">>, <<"T", "E">>, <<"BS", "T", "ES">>, <<"BS", "ES">>, <<"E", "BS", "T", "ES">> }   \* (incl. a complete second signature block: still junk)
 AllClass == {"BM", "E", "BS", "ES", "T", "LK", "D"}
 MCInit ==
   \/ \E h \in SeqsUpTo({"T"}, 2), p \in SeqsUpTo(PayLine, MaxPayload), s \in SeqsUpTo(SigLine, 2) :
